@@ -134,6 +134,10 @@ impl RegisterBase {
 
         if self.cacheable == CachingMode::WriteThrough {
             cx.cache_data(nid, address, length, buf);
+        } else {
+            // The written data is not cached: drop what an earlier read cached for this
+            // register, otherwise the next read would return the value from before the write.
+            cx.invalidate_cache_of(nid);
         }
         Ok(())
     }
